@@ -24,7 +24,7 @@ ASSUMPTIONS = [
 ]
 BOUNDS = {
     "quick": {"full_alphabet_N": 3, "core_alphabet_N": 4, "edit_distance": 1, "value_context_N": 4, "value_core_N": "6 (7 thorough) inside g( .. )"},
-    "thorough": {"full_alphabet_N": 4, "core_alphabet_N": 5, "edit_distance": "2 around the first 10 hand-written seeds, 1 around the others", "value_context_N": 5, "value_core_N": "6 (7 thorough) inside g( .. )"},
+    "thorough": {"full_alphabet_N": 4, "core_alphabet_N": 6, "edit_distance": "2 around the 30 hand-written seeds, 1 around the generated ones", "value_context_N": 5, "value_core_N": "6 (7 thorough) inside g( .. )"},
 }
 
 ENV_SRC = '''
@@ -399,7 +399,7 @@ def work(unit, tier):
         level1 = S.neighbours(base, S.FULL)
         batch([S.join(base)] + sorted(S.join(t) for t in level1))
         # distance 2 only around the hand-written seeds (the generated ones are close variants of each other)
-        if dist >= 2 and idx < 10:
+        if dist >= 2 and idx < len(VALID_SEEDS):
             for t1 in sorted(level1):
                 batch(sorted(S.join(t) for t in S.neighbours(t1, S.CORE, swaps=False)), deep=False)
     elif kind == "inject":
